@@ -135,7 +135,7 @@ def _analyze(c, i, before, after, rx, ctx):
 
 
 def _judge(cases):
-    needs = ["HasRepr"] if any("Opaque" in e for c in cases for e in _exprs(c)) else []
+    needs = ["HasRepr"] if any("Opaque" in e or "Flk" in e for c in cases for e in _exprs(c)) else []
     hdr = ""
     if any(c.get("after_raise") for c in cases):
         hdr = "from inline_snapshot import snapshot\n" + RAISING_FIRST
